@@ -5,11 +5,15 @@
 //     (non-trivial weights); reference bin = floor((x-min)/size) in __float128.
 //  B. multi-call iterations: every bin's (value, error) against a separate integration of
 //     integrand x indicator(bin) / area with the same random numbers, and the sum over bins.
+//  C. the same as B through mpi_plain / mpi_vegas / mpi_multi_channel with 2 and 3 ranks under the MPI environment model
+//     (the bins travel through the reduction next to the integral's sums and the adjustment data).
 #include "common.hpp"
 #include "engines.hpp"
 #include "mcmodel.hpp"
+#include "mpienv.hpp"
 
 #include "hep/mc.hpp"
+#include "hep/mc-mpi.hpp"
 
 #include <cmath>
 
@@ -58,9 +62,50 @@ static hep::distribution_parameters<T> third(hep::distribution_parameters<T> con
     return hep::distribution_parameters<T>(d1.bins_y(), d1.y_min(), d1.y_min() + T(d1.bins_y()) * d1.bin_size_y(), "three");
 }
 
+static int g_world = 0;     // > 0: part C, one iteration of n calls through the MPI integrators with that many ranks
+
+template <typename T>
+static hep::plain_result<T> mpi_iterate(int kind, sz n, hep::distribution_parameters<T> const* d0, hep::distribution_parameters<T> const* d1)
+{
+    using E = vf::script_engine;
+    std::vector<hep::plain_result<T>> got;
+    std::vector<sz> const calls = {n};
+    vf::mpi_env env(g_world);
+    auto const out = env.run([&](int rank) {
+        S<T>().n = 0;
+        S<T>().weights.clear();
+        if (rank == 0) got.clear();
+        if (kind == 0)
+        {
+            auto const c = d0 ? hep::mpi_plain(MPI_COMM_WORLD, hep::make_integrand<T>(fn<T>(), 1, *d0, *d1, third<T>(*d1)), calls, hep::make_plain_chkpt<T, E>(), vf::never_stop_mpi())
+                              : hep::mpi_plain(MPI_COMM_WORLD, hep::make_integrand<T>(fn<T>(), 1), calls, hep::make_plain_chkpt<T, E>(), vf::never_stop_mpi());
+            if (rank == 0) got.push_back(c.results().back());
+        }
+        else if (kind == 1)
+        {
+            hep::vegas_pdf<T> pdf(1, 3);
+            pdf.set_bin_left(0, 1, T(0.125)); pdf.set_bin_left(0, 2, T(0.25));
+            auto const c = d0 ? hep::mpi_vegas(MPI_COMM_WORLD, hep::make_integrand<T>(fn<T>(), 1, *d0, *d1, third<T>(*d1)), calls, hep::make_vegas_chkpt<T, E>(pdf, T(0.75), E()), vf::never_stop_mpi())
+                              : hep::mpi_vegas(MPI_COMM_WORLD, hep::make_integrand<T>(fn<T>(), 1), calls, hep::make_vegas_chkpt<T, E>(pdf, T(0.75), E()), vf::never_stop_mpi());
+            if (rank == 0) got.push_back(hep::plain_result<T>(c.results().back()));
+        }
+        else
+        {
+            vf::pl_map<T> map; map.split = {T(0.25), T(0.5), T(0.75)}; map.jac = 3;
+            std::vector<T> const w = {T(0.5), T(0.125), T(0.375)};
+            auto const c = d0 ? hep::mpi_multi_channel(MPI_COMM_WORLD, hep::make_multi_channel_integrand<T>(fn<T>(), 1, map, 1, 3, *d0, *d1, third<T>(*d1)), calls, hep::make_multi_channel_chkpt<T, E>(w, T(0.015625), T(0.375), E()), vf::never_stop_mpi())
+                              : hep::mpi_multi_channel(MPI_COMM_WORLD, hep::make_multi_channel_integrand<T>(fn<T>(), 1, map, 1, 3), calls, hep::make_multi_channel_chkpt<T, E>(w, T(0.015625), T(0.375), E()), vf::never_stop_mpi());
+            if (rank == 0) got.push_back(hep::plain_result<T>(c.results().back()));
+        }
+    });
+    if (!out.ok || got.size() != 1) { std::fprintf(stderr, "HARNESS: MPI run failed in C11: %s\n", out.what.c_str()); std::exit(3); }
+    return got[0];
+}
+
 template <typename T>
 static hep::plain_result<T> iterate(int kind, sz n, hep::distribution_parameters<T> const* d0, hep::distribution_parameters<T> const* d1)
 {
+    if (g_world > 0) return mpi_iterate<T>(kind, n, d0, d1);
     vf::script_engine gen;
     S<T>().n = 0;
     S<T>().weights.clear();
@@ -248,15 +293,18 @@ static void part_a(report& r)
 }
 
 template <typename T>
-static void part_b(report& r)
+static void part_b(report& r, int world = 0)
 {
     std::string const tn = vf::type_name<T>();
     L const eps = std::numeric_limits<T>::epsilon();
+    struct reset { ~reset() { g_world = 0; } } reset_world;
+    g_world = world;
     for (int kind = 0; kind != 3; ++kind)
     for (sz bins : {sz(1), sz(2), sz(4)})
     for (int pat = 0; pat != 18; ++pat)     // 12..17: a steeply falling spectrum of values that are no dyadic numbers
     {
-        std::string const id = tn + " B kind=" + std::to_string(kind) + " bins=" + std::to_string(bins) + " pattern=" + std::to_string(pat);
+        if (world > 0 && (bins == 1 || (pat % 6) >= 2)) continue;      // part C: 2 and 4 bins, six of the patterns
+        std::string const id = tn + (world > 0 ? " C world=" + std::to_string(world) : std::string(" B")) + " kind=" + std::to_string(kind) + " bins=" + std::to_string(bins) + " pattern=" + std::to_string(pat);
         if (!r.want(id)) continue;
         r.eval();
         sz const n = 9;
@@ -329,6 +377,7 @@ static void for_type(report& r)
     if (!r.want_prefix(tn)) return;
     if (r.want_prefix(tn + " A")) part_a<T>(r);
     if (r.want_prefix(tn + " B")) part_b<T>(r);
+    if (r.want_prefix(tn + " C")) { part_b<T>(r, 2); part_b<T>(r, 3); }
 }
 
 int main(int argc, char** argv)
